@@ -72,7 +72,13 @@ class World:
     def enqueue(self, study: Any = None) -> None:
         k = self.n_enq
         self.n_enq += 1
-        (study or self.study).enqueue_trial({"x": fixed_value(k)}, user_attrs={"q": k})
+        params, attrs = {"x": fixed_value(k)}, {"q": k}
+        (study or self.study).enqueue_trial(params, user_attrs=attrs)
+        # the caller goes on using its own dicts (next variant of a base configuration ...): what
+        # was queued must not change with them
+        params["x"] = 0.03125
+        params["junk"] = 1
+        attrs["q"] = -1
 
     def apply_prefix(self, op: str) -> bool:
         s = self.study
@@ -84,8 +90,10 @@ class World:
             k = self.n_enq
             self.n_enq += 1
             before = len(s.get_trials(deepcopy=False))
-            s.add_trial(optuna.trial.create_trial(state=TrialState.WAITING, system_attrs={"fixed_params": {"x": fixed_value(k)}},
-                                                  user_attrs={"q": k}))
+            sysattrs, attrs = {"fixed_params": {"x": fixed_value(k)}}, {"q": k}
+            s.add_trial(optuna.trial.create_trial(state=TrialState.WAITING, system_attrs=sysattrs, user_attrs=attrs))
+            sysattrs["fixed_params"]["x"] = 0.03125
+            attrs["q"] = -1
             self.queued[before] = (fixed_value(k), {"q": k})
         elif op == "ask":
             t = s.ask()
@@ -181,7 +189,10 @@ class Run:
                             else:
                                 k = w.n_enq
                                 w.n_enq += 1
-                                studies[i].enqueue_trial({"x": fixed_value(k)}, user_attrs={"q": k})
+                                params, attrs = {"x": fixed_value(k)}, {"q": k}
+                                studies[i].enqueue_trial(params, user_attrs=attrs)
+                                params["x"] = 0.03125
+                                attrs["q"] = -1
                                 enq_done.append((sched.now(), k))
                         except thx.DeadlockAbort:
                             raise
@@ -215,6 +226,10 @@ class Run:
         for num, ws in claims.items():
             if len(ws) > 1:
                 bad.append(("trial-returned-by-two-asks", f"trial {num} workers {ws}"))
+        for num, fp in queued.items():
+            q = final[num][2].get("q")
+            if not isinstance(q, int) or q < 0 or fp.get("x") != fixed_value(q) or set(fp) != {"x"}:
+                bad.append(("queued-parameters-changed-after-enqueue-returned", f"trial {num}: fixed_params={fp} user_attrs={final[num][2]}"))
         for i, num, tid, v, ua, inv in ex["got"]:
             if num in queued:
                 fv = queued[num]["x"]
